@@ -34,10 +34,16 @@ def name_pattern(ctx):
             and m.resolve(mod, e.value.func) == "re.compile"
             and e.value.args):
         raise AnalysisError("_name_match is not re.compile(<pattern>).<method>")
-    if len(e.value.args) > 1 or e.value.keywords:
-        raise AnalysisError("_name_match compiled with flags: unsupported")
+    call = e.value
+    if len(call.args) > 2 or any(k.arg != "flags" for k in call.keywords) \
+            or len(call.args) + len(call.keywords) > 2:
+        raise AnalysisError("_name_match is not re.compile(<pattern>"
+                            "[, <flags>]).<method>")
+    flags = call.args[1] if len(call.args) == 2 else (
+        call.keywords[0].value if call.keywords else None)
+    from rules.c03 import inline_flags
     try:
-        pat = m.fold(mod, e.value.args[0])
+        pat = inline_flags(m, mod, flags) + m.fold(mod, e.value.args[0])
     except Unfoldable as ex:
         raise AnalysisError("cannot fold the name pattern: %s" % ex)
     return pat, e.attr
